@@ -401,7 +401,7 @@ def work_instances(rng, big=False):
     combos = [("min", False), ("max", False), ("min", True), ("max", True)]
     sizes = [40, 300, 560, 1100, 2600, 5200] + ([26000] if big else [])
     for k_i, K in enumerate(sizes):
-        picks = combos if K <= 1100 else [combos[(k_i + t) % 4] for t in range(2)]
+        picks = combos if K <= 1100 else list(dict.fromkeys([("max", False), combos[k_i % 4], ("min", False)]))[:2]
         if K >= 26000:
             picks = [rng.choice(combos)]
         for sense, flipped in picks:
@@ -449,7 +449,7 @@ def inf_rows(rng, inst):
         pos = rng.randrange(len(t["b"]) + 1)
         t["A"].insert(pos, [rng.randint(-3, 4) for _ in range(n)])
         t["b"].insert(pos, float("inf"))
-    t["family"] = "float:inf-rhs"
+    t["family"] = "observation:inf-rhs"         # POLICY_X (a): +-inf as data is outside the property
     t["reference"] = {k: inst[k] for k in ("c", "A", "b", "ints", "minimize")}
     return t
 
